@@ -35,7 +35,7 @@ def _strategy(tier):
                      caps=(1, 5), decline_weight=0)
 
 
-PARTS = {"sim": {"check": check_case, "strategy": _strategy, "budget": {"quick": 1500, "thorough": 40000}}}
+PARTS = {"sim": {"check": check_case, "strategy": _strategy, "budget": {"quick": 3000, "thorough": 40000}}}
 
 
 def vacuity(merged, tier):
